@@ -172,6 +172,8 @@ def random_grammar(rng, depth, leaves, unaries, binaries, ternaries=()):
 # constructor sets
 
 A, B, EA, CLEF, COMMA = 97, 98, 233, 0x1D11E, 44
+THAI = 0x0E01          # U+0800..U+0FFF: the only 3-byte characters whose UTF-8 leading byte is 0xE0
+UTF8_EDGES = [0x7F, 0x80, 0x7FF, 0x800, 0xFFF, 0x1000, 0xD7FF, 0xE000, 0xFFFF, 0x10000, 0x3FFFF, 0x40000, 0xFFFFF, 0x100000, 0x10FFFF]
 
 C01_LEAVES = [
     ('end',), ('empty',), ('any',), ('just', [A]), ('just', [B]), ('just', [A, B]), ('just', [EA]),
